@@ -454,3 +454,182 @@ package plugin
 //@   requires c != nil && linesCh != nil
 //@   modifies wg_count
 //@   ensures wg_count[c.clientWaitGroup] == old(wg_count)[c.clientWaitGroup] - 1   [C10.recv]
+
+// ---------------------------------------------------------------------------------------
+// MuxBroker (C06, C09, C20)
+
+//@ ghost pkey: map[Int]Int
+//@ ghost ch_owner: map[Int]Int
+//@ chaninv chan net.Conn: wtag(elem) == pkey[ch_owner[ch]] && elem != nil   [C06.park]
+
+//@ type MuxBroker
+//@   guarded_by Mutex: map:streams   [C20.guard] [C06.slot]
+//@   inv this.streams != nil && (forall k :: k in this.streams ==> this.streams[k] != nil && pkey[this.streams[k]] == k && this.streams[k].ch != nil && this.streams[k].doneCh != nil && ch_owner[this.streams[k].ch] == this.streams[k] && allocated(this.streams[k]) && allocated(this.streams[k].ch) && !closed(this.streams[k].ch))   [C06.slot]
+//@   immutable session, streams   [C20.guard]
+//@   atomic_only nextId   [C20.guard]
+//@   noblock Mutex   [C09.nolock]
+//@   writers newMuxBroker
+
+//@ type muxBrokerPending
+//@   immutable ch, doneCh   [C20.guard]
+//@   writers (*MuxBroker).getStream
+
+//@ func newMuxBroker
+//@   nopanic [C06.total]
+//@   nonblocking
+//@   modifies nothing
+//@   ensures result != nil && fresh(result) && result.session == s && result.streams != nil && !held(result.Mutex)   [C06.new]
+//@   ensures forall k :: !(k in result.streams)   [C06.new]
+
+//@ func (*MuxBroker).getStream
+//@   nopanic [C06.total] [C20.nopanic]
+//@   nonblocking
+//@   requires !held(m.Mutex)
+//@   modifies pkey, ch_owner, mapof(m.streams), heap_fresh
+//@   at mapupdate#1 set pkey := pkey[value := key]
+//@   at store muxBrokerPending.ch#1 set ch_owner := ch_owner[value := object]
+//@   ensures !held(m.Mutex)   [C09.balance]
+//@   ensures result != nil && pkey[result] == id && result.ch != nil && result.doneCh != nil && ch_owner[result.ch] == result && !closed(result.ch)   [C06.slot]
+
+//@ func (*MuxBroker).NextId
+//@   nopanic [C06.total]
+//@   nonblocking
+//@   modifies m.nextId
+//@   ensures result == (old(m.nextId) + 1) % 4294967296 && m.nextId == result   [C06.id] [C20.id]
+
+//@ func (*MuxBroker).Close
+//@   nopanic [C09.total]
+//@   nonblocking
+//@   modifies nothing
+
+//@ func (*MuxBroker).Run
+//@   nopanic [C06.total] [C09.total] [C20.nopanic]
+//@   bounded peer-dead [C09.timer]
+//@   requires m.session != nil && !held(m.Mutex)
+//@   modifies heap, yaccepts, tokens, ackr, pkey, ch_owner
+//@   after select#1 set tokens := ite(index == 0, tokens - 1, tokens)
+//@   loop#1 invariant tokens == at_loop(tokens) && !held(m.Mutex)   [C09.own]
+//@   at go#1 assert arg1 == wtag_read && arg2 != nil && pkey[arg2] == wtag_read   [C06.park]
+//@   after call binary.Read#1 bind wtag_read: Int := id
+//@   ensures tokens == old(tokens)   [C09.own]
+
+//@ func (*MuxBroker).timeoutWait
+//@   nopanic [C09.total] [C20.nopanic]
+//@   bounded peer-dead [C09.timer]
+//@   requires !held(m.Mutex) && p != nil && p.ch != nil && p.doneCh != nil && !closed(p.ch)
+//@   modifies mapof(m.streams), tokens, conns_open
+//@   after select#2 set tokens := ite(index == 0, tokens + 1, tokens)
+//@   ensures !held(m.Mutex)   [C09.balance]
+//@   ensures tokens == old(tokens)   [C09.own]
+
+//@ func (*MuxBroker).Accept
+//@   nopanic [C06.total] [C03.d] [C20.nopanic]
+//@   bounded peer-dead [C09.timer] [C03.c]
+//@   close_once [C20.close1]
+//@   requires !held(m.Mutex)
+//@   modifies pkey, ch_owner, mapof(m.streams), heap_fresh, tokens, conns_open, firstw
+//@   after call (*MuxBroker).getStream#1 assume !closed(ret.doneCh)
+//@   after select#1 set tokens := ite(index == 0, tokens + 1, tokens)
+//@   ensures !held(m.Mutex)   [C09.balance]
+//@   ensures result1 == nil ==> result0 != nil && wtag(result0) == id && firstw[result0] == id   [C06.accept]
+//@   ensures result1 == nil ==> tokens == old(tokens) + 1   [C09.own]
+//@   ensures result1 != nil ==> result0 == nil && tokens == old(tokens)   [C09.own]
+
+//@ func (*MuxBroker).Dial
+//@   nopanic [C06.total] [C03.d] [C20.nopanic]
+//@   bounded peer-dead [C09.timer] [C03.c]
+//@   requires m.session != nil
+//@   modifies yopens, tokens, firstw, ackr
+//@   ensures result1 == nil ==> result0 != nil && firstw[result0] == id && ackr[result0] == id   [C06.dial]
+//@   ensures result1 == nil ==> tokens == old(tokens) + 1   [C09.own]
+//@   ensures result1 != nil ==> result0 == nil && tokens == old(tokens)   [C09.own]
+
+// ---------------------------------------------------------------------------------------
+// net/rpc server and client sides of Dispense (C06, C14), control server (C04)
+
+//@ type RPCServer
+//@   guarded_by lock: DoneCh   [C20.guard]
+//@   inv this.DoneCh != nil ==> !closed(this.DoneCh)   [C20.close1]
+
+//@ func (*RPCServer).done
+//@   nopanic [C04.quit] [C20.nopanic]
+//@   close_once [C20.close1] [C04.quit]
+//@   nonblocking
+//@   requires !held(s.lock)
+//@   modifies s.DoneCh
+//@   ensures !held(s.lock)   [C04.quit]
+//@   ensures s.DoneCh == nil   [C04.quit]
+
+//@ func (*controlServer).Quit
+//@   nopanic [C04.quit]
+//@   nonblocking
+//@   requires c.server != nil && !held(c.server.lock) && response != nil
+//@   modifies c.server.DoneCh
+//@   ensures result == nil && c.server.DoneCh == nil   [C04.quit]
+
+//@ func serve
+//@   nopanic [C06.total]
+//@   modifies nothing
+//@   at call (*rpc.Server).RegisterName#1 assert arg0 == name && arg1 == v   [C06.disp]
+//@   at call (*rpc.Server).ServeConn#1 assert arg0 == conn   [C06.disp]
+
+//@ func (*dispenseServer).Dispense
+//@   nopanic [C06.total] [C14.total]
+//@   nonblocking
+//@   requires d.broker != nil && response != nil
+//@   requires forall k: Str :: k in d.plugins ==> d.plugins[k] != nil
+//@   modifies *response, d.broker.nextId
+//@   after call (Plugin).Server#1 bind impl0: Iface := ret0
+//@   at go#1 assert cap_id == *response && cap_impl == impl0 && cap_d == d   [C06.disp]
+//@   ensures !(name in d.plugins) ==> result != nil && d.broker.nextId == old(d.broker.nextId)   [C14.name] [C06.disp]
+//@   ensures result != nil ==> d.broker.nextId == old(d.broker.nextId)   [C06.disp]
+//@   ensures result == nil ==> *response == d.broker.nextId && d.broker.nextId == (old(d.broker.nextId) + 1) % 4294967296   [C06.disp]
+
+//@ func (*dispenseServer).Dispense$1
+//@   nopanic [C06.total]
+//@   requires d != nil && d.broker != nil && !held(d.broker.Mutex)   [nospawn]
+//@   modifies heap, pkey, ch_owner, tokens, conns_open, firstw
+//@   after call (*MuxBroker).Accept#1 bind acc: Iface := ret0
+//@   at call (*MuxBroker).Accept#1 assert recv == d.broker && arg0 == id   [C06.disp]
+//@   at call serve#1 assert arg0 == acc && arg1 == "Plugin" && arg2 == impl   [C06.disp]
+
+//@ func (*RPCClient).Dispense
+//@   nopanic [C06.total] [C14.total] [C03.d]
+//@   bounded peer-dead [C03.c]
+//@   requires c.control != nil && c.broker != nil && c.broker.session != nil
+//@   requires forall k: Str :: k in c.plugins ==> c.plugins[k] != nil
+//@   modifies rpc_calls, yopens, tokens, firstw, ackr, heap_fresh
+//@   after call (*rpc.Client).Call#1 bind got_id: Int := id
+//@   after call (*MuxBroker).Dial#1 bind dconn: Iface := ret0
+//@   at call (*MuxBroker).Dial#1 assert recv == c.broker && arg0 == got_id   [C06.disp]
+//@   at call (Plugin).Client#1 assert arg0 == c.broker && rpcclient_conn(arg1) == dconn   [C06.disp]
+//@   ensures !(name in c.plugins) ==> result1 != nil && rpc_calls == old(rpc_calls) && yopens == old(yopens)   [C14.name]
+
+//@ func (*RPCClient).Ping
+//@   nopanic [C03.d]
+//@   bounded peer-dead [C03.c]
+//@   requires c.control != nil
+//@   modifies rpc_calls
+
+//@ func (*RPCClient).Close
+//@   nopanic [C03.d] [C04.total]
+//@   bounded peer-dead [C03.c]
+//@   requires c.control != nil && c.stdout != nil && c.stderr != nil && c.broker != nil && c.broker.session != nil
+//@   modifies rpc_calls, conns_open, tokens
+//@   after call (*rpc.Client).Call#1 bind quit_err: Iface := ret
+//@   ensures quit_err != nil ==> result != nil   [C04.graceful]
+
+//@ lemma C06.pairing   [C06.L]
+//@   var s, c: Iface
+//@   var n, m: Int
+//@   var fw: map[Int]Int
+//@   assume ypeer(s) == c
+//@   assume fw[s] == n
+//@   assume wtag(c) == m
+//@   assume forall x: Int :: wtag(ypeer(x)) == fw[x]
+//@   prove m == n
+
+//@ lemma C06.ids-distinct   [C06.id] [C20.id]
+//@   var a, k, l: Int
+//@   assume 0 <= a && a < 4294967296 && 0 <= k && k < l && l - k < 4294967296
+//@   prove (a + k) % 4294967296 != (a + l) % 4294967296
